@@ -20,6 +20,8 @@
 (*     (or is below 0.2% of D)                      (C03: Full, presets)   *)
 (*   - the true regret is at most D N sqrt(A) / sqrt(T)                    *)
 (*                                          (C04: Sampled, External)       *)
+(* `xrun` events (games with events of probability 2^-60 and payoffs 2^62)  *)
+(* are held to C02 on the floating-point numbers themselves.               *)
 (* and, at the `corpus` event, that over the games of the trace the        *)
 (* regret relative to the payoff range after the largest budget is below   *)
 (* one percent for most games and has at least halved since the small      *)
@@ -110,11 +112,20 @@ RunEv == /\ IsEvent("run")
                      ELSE tally
          /\ UNCHANGED stats
 
+\* a run of Full / vanilla on a game of EXTREME magnitudes (events of probability 2^-60 with payoffs 2^62): the
+\* statistics and the micro-units leave 32 bits, so no envelope - C02 on the floating-point numbers themselves
+XRunOK(r) == /\ Common(r)
+             /\ TokLe(r.rt, r.bt)
+             /\ (r.iters < r.T => TokLt(r.rt, r.thr))
+XRun == /\ IsEvent("xrun")
+        /\ XRunOK(Rec[l]) = TRUE
+        /\ UNCHANGED <<stats, small, tally>>
+
 Corpus == /\ IsEvent("corpus")
           /\ (tally.n >= 10 => (2 * tally.below >= tally.n /\ 2 * tally.halved >= tally.n))
           /\ UNCHANGED <<stats, small, tally>>
 
-TraceNext == Reset \/ RunEv \/ Corpus
+TraceNext == Reset \/ RunEv \/ XRun \/ Corpus
 TraceSpec == TraceInit /\ [][TraceNext]_tvars
 
 TraceAccepted ==
